@@ -146,6 +146,58 @@ def detect(ids, tier="quick", extra_props=()):
         json.dump(results, open(resf, "w"), indent=1)
 
 
+def _detect_group(args):
+    """all seeded changes of one property, one after the other, each in its own scratch worktree of /repo HEAD
+    (PFHEDGE_REPO=<worktree>; the Lean gate runs as usual; evidence of such runs goes to /tmp, never to evidence/)"""
+    prop, sids, tier = args
+    res = {}
+    for sid in sids:
+        d = f"{V}/seeded/{sid}"
+        wt = f"{WS}/det_{sid}"
+        sh(["git", "-C", "/repo", "worktree", "remove", "--force", wt])
+        shutil.rmtree(wt, ignore_errors=True)
+        rc, o = sh(["git", "-C", "/repo", "worktree", "add", "-q", "--detach", wt, "HEAD"])
+        if rc:
+            res[sid] = {"status": "worktree failed", "log": o[-200:]}
+            continue
+        try:
+            rc, o = sh(["git", "apply", f"{d}/patch.diff"], cwd=wt)
+            if rc:
+                res[sid] = {"status": "patch does not apply", "log": o[-200:]}
+                continue
+            env = dict(os.environ, VERIF_SEED=os.environ.get("VERIF_SEED", "20260930"), PFHEDGE_REPO=wt)
+            rc, out = sh([f"{V}/check", prop, "--tier", tier], cwd=V, env=env, timeout=7200)
+            viol = [l for l in out.splitlines() if l.startswith("VIOLATION")]
+            keys = []
+            for l in viol:
+                m = re.search(r"replay=(\S+)", l)
+                if m and os.path.exists(f"{V}/{m.group(1)}"):
+                    r = json.load(open(f"{V}/{m.group(1)}"))
+                    keys.append(r.get("key") or ("tie-broken:" + ",".join(sorted({t.get('kind', '?') + ':' + str(t.get('op', '')) for t in r.get('ties_broken', [])}))))
+            res[sid] = {"property": prop, "tier": tier, "rc": rc, "detected": rc == 1 and bool(viol), "violations": viol[:4], "keys": keys[:6],
+                        "tail": out.strip().splitlines()[-1][-200:] if out.strip() else "", "how": "scratch worktree of /repo HEAD + PFHEDGE_REPO"}
+            print(sid, "DETECTED" if res[sid]["detected"] else f"MISSED rc={rc}", keys[:3], flush=True)
+        finally:
+            sh(["git", "-C", "/repo", "worktree", "remove", "--force", wt])
+            shutil.rmtree(wt, ignore_errors=True)
+    return res
+
+
+def detect_parallel(ids, tier="quick", workers=6):
+    os.makedirs(WS, exist_ok=True)
+    groups = {}
+    for sid in ids:
+        groups.setdefault(json.load(open(f"{V}/seeded/{sid}/meta.json"))["property"], []).append(sid)
+    resf = f"{V}/seeded/detection.json"
+    results = json.load(open(resf)) if os.path.exists(resf) else {}
+    with cf.ThreadPoolExecutor(max_workers=workers) as ex:
+        for res in ex.map(_detect_group, [(p, s, tier) for p, s in sorted(groups.items())]):
+            results.update(res)
+            json.dump(results, open(resf, "w"), indent=1)
+    missed = [k for k in ids if not results.get(k, {}).get("detected")]
+    print("missed:", missed)
+
+
 if __name__ == "__main__":
     cmd = sys.argv[1]
     if cmd == "confirm":
@@ -153,3 +205,6 @@ if __name__ == "__main__":
     elif cmd == "detect":
         ids = sys.argv[2:] or sorted(os.path.basename(p) for p in glob.glob(f"{V}/seeded/C*_[mnp]*"))
         detect(ids, tier=os.environ.get("SEEDED_TIER", "quick"))
+    elif cmd == "detect-parallel":
+        ids = sys.argv[2:] or sorted(os.path.basename(p) for p in glob.glob(f"{V}/seeded/C*_[mnp]*"))
+        detect_parallel(ids, tier=os.environ.get("SEEDED_TIER", "quick"), workers=int(os.environ.get("SEEDED_WORKERS", "6")))
